@@ -1,6 +1,7 @@
 """C14 — shipped routing-policy generators (DESIGN §3.C14)."""
 from __future__ import annotations
 
+import ipaddress
 import json
 
 from .. import core
@@ -9,25 +10,45 @@ from ..core import cstr, clist, cpair, cnat, cbool, copt, cforest
 ID = "C14"
 THEOREM_FILE = "Properties/C14.v"
 LEVEL = "proof"
-IMPORTS = "From Annet Require Import Base.Str Base.Tree Model.Offside Model.Rpl Spec.P_C14."
+IMPORTS = "From Annet Require Import Base.Str Base.Tree Model.Offside Model.Rpl Spec.P_C14 Spec.P_C14x Spec.P_C14r Spec.P_C14a."
 TY = "(vendor * prog) * list igen"
 META = {
-    "text": "Partial. Proof (for the hand model of policy.py/community.py/prefix_lists.py/aspath.py/rd.py/"
-            "cumulus_frr.py with the C14 patches applied): for every vendor, every action and every match "
-            "condition, with all list parameters universally quantified, an error comes with no line of that "
-            "item; on whole streams an error attributed to an item comes with no row of that item; every name a "
-            "policy row refers to is defined by the matching list generator on the same inputs (derived prefix-list "
-            "names, _OR_-united lists); every row is covered by the generator's own ACL text (regenerated from the "
-            "source on every run). The unpatched behaviour is kept in the model and proved to violate the property "
-            "(refuted lemmas). Correspondence: random RouteMap programs built through the documented R.*/rule.* "
-            "builders are run through the real _run_partial_generator(use_acl=True) (huawei, arista) and "
-            "generate_cumulus_rpl, the run(device) stream being consumed row by row; Coq evaluates the property "
-            "predicate on the real output and compares it with the model under the abstraction "
-            "(block path, command head, names, item).",
-    "technique": "Coq case analysis over the action/condition enums with universally quantified lists; "
-                 "vm_compute differential check on real generator streams",
-    "note": "partial: the tie between the 1.5k lines of dispatch code and the model is the correspondence run; "
-            "values inside rows (numbers, members) are not compared, only heads/names/nesting/errors",
+    "text": "Partial (the model is hand-written; it is tied to the code by the correspondence). "
+            "PROVED FOR ALL INPUTS on the Gallina model of policy.py/community.py/prefix_lists.py/aspath.py/rd.py/"
+            "cumulus_frr.py/entities.py (Model/Rpl.v, with the C14 patches applied): "
+            "(d) for every vendor, action and match condition (all list parameters universally quantified) an "
+            "error comes with no line of that item, and on whole streams an error attributed to an item comes with "
+            "no row of it (the unpatched behaviour is kept in the model and refuted); "
+            "(c) C14_refs_defined: for huawei, arista, cumulus and every program whose references resolve type-correctly to lists with members (wf_refs; entity names may repeat), when no list generator "
+            "raised, every (name space, name) a row of the policy generator refers to - prefix lists incl. the names "
+            "PrefixListNameGenerator derives from or_longer bounds (a bound 0 counts as unset for the decision), "
+            "community lists incl. _OR_-united names in the order of the HAS_ANY arguments, as-path filters, RD "
+            "numbers - is defined by a row of the matching list generator fed the same inputs; guards: on Arista no "
+            "list called `regexp` and no community value spelled `community-list`, on Arista/Cumulus one union per "
+            "mangled key - without the latter the statement is refuted (C14_refs_united_name_collision_refuted) and "
+            "the witness fails on the real generators too (open known finding); "
+            "(a) C14_acl_covered: for huawei and arista and every program, with no guard, every row of every "
+            "generator (huawei community lists basic/advanced x community/extcommunity rt/soo/large, arista lists "
+            "with and without regexp, prefix lists with their seq children, as-path, rd, statement headers and every "
+            "condition/action row) is covered - in the C06 model of apply_acl (Model/Acl.v) - by that generator's own "
+            "ACL text, which tr_rpl.py reads from the acl_huawei/acl_arista methods on every run (fail closed). "
+            "TESTED (correspondence, Coq evaluates everything): random RouteMap programs built through the documented "
+            "R.*/rule.* builders are run through the real _run_partial_generator(use_acl=True) (huawei, arista) and "
+            "generate_cumulus_rpl, the run(device) stream being consumed row by row; every row of the model is "
+            "compared WORD FOR WORD with the real row (names, members, bounds, sequence numbers, block path, item, "
+            "error class), also for entity sets with duplicate names; pfx_name/mangle are compared with "
+            "PrefixListNameGenerator.get_prefix(...).name and mangle_united_community_list_name on direct probes "
+            "(bounds 0, unset bounds, unsorted and repeated names); P_C14 (no AclError, nesting, refs subset of defs "
+            "whole and split by generator, error before lines) and the Coq ACL model on the real rows are evaluated "
+            "on the real output. NOT PROVED: (b) nesting (parse of the generated text) is only evaluated on real "
+            "outputs; the theorems read rows as token lists, the step from tokens to text is the correspondence.",
+    "technique": "Coq: case analysis over the action/condition enums with universally quantified lists, induction "
+                 "over statement/policy streams, a reflective word-level ACL cover proved sound for Model/Acl.v; "
+                 "fail-closed ast translator for the ACL texts; vm_compute differential check on real generator "
+                 "streams",
+    "note": "partial: the tie between the 1.5k lines of dispatch code and the model is the correspondence run "
+            "(word-for-word on every row); nesting (b) is not a theorem; refs_defined is stated on the model's token "
+            "rows under computable guards (counted per run: cases_in_domain_of_C14_refs_defined)",
 }
 
 VENDORS = ["huawei", "arista", "cumulus"]
@@ -80,13 +101,17 @@ def entities(rng, tame=False):
 POOL = {"community": ["B1", "B2", "B3"], "large_community": ["L1", "L2", "L3"],
         "extcommunity_rt": ["R1", "R2", "R3"], "extcommunity_soo": ["S1", "S2", "S3"],
         "extcommunity": ["R1", "R2", "S1", "S2"]}
-OR_LONGER = [(None, None), (None, None), (8, 24), (None, 32), (16, None), (0, None), (0, 0), (29, 48)]
+OR_LONGER = [(None, None), (None, None), (8, 24), (None, 32), (16, None), (0, None), (0, 0), (29, 48),
+             (0, 24), (None, 0), (24, 0)]
 
 
 def gen_cond(rng, field):
     if field in ("community", "large_community", "extcommunity_rt", "extcommunity_soo"):
         k = rng.choice([1, 1, 2, 3])
-        return [field, rng.choice(["has", "has_any"]), rng.sample(POOL[field], k)]
+        names = rng.sample(POOL[field], k)          # sample: any order, so unsorted member lists occur
+        if rng.random() < 0.08:
+            names.append(names[0])                  # the same list named twice
+        return [field, rng.choice(["has", "has_any"]), names]
     if field == "rd":
         return ["rd", rng.choice(["has", "has_any"]), rng.sample(["RD1", "RD2"], rng.choice([1, 1, 2]))]
     if field == "match_v4":
@@ -292,6 +317,39 @@ def gen_program(rng, vendor, tame=False):
     return {"vendor": vendor, "clists": cl, "plists": pl, "aspaths": af, "rdfilters": rd, "policies": policies}
 
 
+def add_probes(rng, case):
+    """direct calls of the name-derivation functions (bounds equal to 0, unset bounds, unsorted and
+    repeated member names)"""
+    case["probes"] = {
+        "pfx": [[rng.choice(["P4a", "P4b", "P6a", "P6b"]), rng.choice([None, 0, 1, 8, 32, 128]),
+                 rng.choice([None, 0, 1, 24, 32, 128])] for _ in range(3)],
+        "mangle": [[rng.choice(["B1", "B2", "B3", "L1", "R2", "S3"]) for _ in range(rng.choice([1, 2, 2, 3, 4]))]
+                   for _ in range(2)],
+    }
+    return case
+
+
+def duplicate_entities(rng, case):
+    """entity sets in which a name occurs twice: every generator keeps them in a dict keyed by name"""
+    import copy
+    case = copy.deepcopy(case)
+    for key in ("clists", "plists", "aspaths", "rdfilters"):
+        if rng.random() < 0.7:
+            src = copy.deepcopy(rng.choice(case[key]))
+            if key == "clists":
+                src["members"] = [m for m in reversed(src["members"])] + src["members"][:1]
+                src["logic"] = rng.choice(["AND", "OR"])
+            elif key == "plists":
+                src["members"] = src["members"][:1]
+            elif key == "aspaths":
+                src["filters"] = ["64512"]
+            else:
+                src["members"] = ["7:7"]
+            case[key].insert(rng.randrange(len(case[key]) + 1), src)
+    case["dup_entities"] = True
+    return case
+
+
 def exhaustive_items(rng):
     """One statement per shape of action / condition, on every vendor."""
     acts = []
@@ -351,6 +409,19 @@ def exhaustive_items(rng):
             out.append({"vendor": vendor, "clists": cl, "plists": pl, "aspaths": af, "rdfilters": rd,
                         "policies": [{"name": "pol0", "statements": [
                             {"number": 10, "name": "n0", "conds": cs, "calls": [["set_tag", 1], ["deny"]]}]}]})
+    # witnesses of C14_refs_united_name_collision_refuted (Properties/C14.v), replayed on the real generators
+    for vendor in ("arista", "cumulus"):
+        cl, pl, af, rd = entities(rng)
+        cl = [c for c in cl if c["name"] in ("B1", "B2")] + [
+            {"name": "B1_OR_B2", "members": ["9:9:9"], "type": "LARGE", "logic": "OR", "use_regex": False}]
+        for c in cl[:2]:
+            c["use_regex"], c["members"] = False, ["100:1"]
+        out.append({"vendor": vendor, "clists": cl, "plists": pl, "aspaths": af, "rdfilters": rd,
+                    "policies": [{"name": "pol0", "statements": [
+                        {"number": 10, "name": "n0", "conds": [["community", "has_any", ["B1", "B2"]]],
+                         "calls": [["allow"]]},
+                        {"number": 20, "name": "n1", "conds": [["large_community", "has", ["B1_OR_B2"]]],
+                         "calls": [["allow"]]}]}]})
     return out
 
 
@@ -361,8 +432,17 @@ def gen_cases(ctx):
     n_rand = 9000 if ctx.thorough else 900
     for i in range(n_rand):
         cases.append(gen_program(rng, VENDORS[i % 3], tame=(i % 2 == 0)))
+    n_dup = 150 if ctx.thorough else 18
+    rng2 = ctx.rng("dup")
+    for i in range(n_dup):
+        cases.append(duplicate_entities(rng2, gen_program(rng2, VENDORS[i % 3], tame=True)))
+    rng3 = ctx.rng("probes")
+    for c in cases:
+        add_probes(rng3, c)
     ctx.coverage["input_distribution"] = {
         "exhaustive_single_item_programs": n_exh, "random_programs": n_rand,
+        "programs_with_duplicate_entity_names": n_dup,
+        "or_longer_bounds": [list(x) for x in OR_LONGER],
         "random_streams": "half mostly-valid (constructs the vendor back-end accepts), half unrestricted "
                           "(near-miss: unsupported operators/actions, missing or duplicate numbers, next_policy)",
         "exhaustive_scope": "every builder shape of each action (set/add/remove combinations per community field, "
@@ -442,7 +522,8 @@ def coq_prog(case, prog):
                f"{cbool(c['use_regex'])}" for c in case["clists"])
 
     def pmem(m):
-        addr, ln = m[0].split("/")
+        net = ipaddress.ip_network(m[0])     # what IpPrefixListMember.__post_init__ stores
+        addr, ln = str(net.network_address), str(net.prefixlen)
         return f"PM {cstr(addr)} {cstr(ln)} {onat(m[1])} {onat(m[2])}"
     pl = clist(f"PL {cstr(p['name'])} {cbool(p['v6'])} {clist(pmem(m) for m in p['members'])}" for p in case["plists"])
     af = clist(f"AF {cstr(a['name'])} {strs(a['filters'])}" for a in case["aspaths"])
@@ -495,10 +576,17 @@ def coq_case(case, out):
 
 PREDS = {
     "agree": "fun c => agree patched (fst (fst c)) (snd (fst c)) (snd c)",
+    "agree_full": "fun c => agree_full patched (fst (fst c)) (snd (fst c)) (snd c)",
     "acl": "fun c => P_C14_a (fst (fst c)) (snd (fst c)) (snd c)",
+    # the C06 model of ACL filtering, fed the ACL text read from the source, on the REAL rows
+    "acl_model": "fun c => P_acl_model (fst (fst c)) (snd c)",
     "nesting": "fun c => P_C14_b (fst (fst c)) (snd (fst c)) (snd c)",
     "refs": "fun c => P_C14_c (fst (fst c)) (snd (fst c)) (snd c)",
+    "refs_split": "fun c => P_C14_c_split (fst (fst c)) (snd (fst c)) (snd c)",
     "before": "fun c => P_C14_d (fst (fst c)) (snd (fst c)) (snd c)",
+    # domain of theorem C14_refs_defined (counted, not a verdict)
+    "refs_thm_domain": "fun c => wf_refs (snd (fst c)) && refs_guard (fst (fst c)) (snd (fst c)) && "
+                       "lists_ok (fst (fst c)) (snd (fst c))",
     "wf": "fun c => wf_prog (snd (fst c))",
 }
 
@@ -537,9 +625,24 @@ def signature(kind, case, out):
                         f"{v} {name} generator: real runner outcome {r} with stream error {o['err']}")
             if "ok" in r and o["err"]:
                 return (f"C14/{v}/{name}-generator/runner-ok-after-stream-error", f"{o['err']}")
+    if kind == "acl_model":
+        return (f"C14/{v}/row-not-covered-by-own-acl",
+                f"{v}: a row streamed by a generator is not covered by that generator's own ACL text "
+                f"(Model/Acl.v on Gen/Src_rpl.v)")
     if kind == "nesting":
         return (f"C14/{v}/nesting-differs", f"{v}: parsed nesting of the generated text differs from the yielded one")
-    if kind == "refs":
+    if kind in ("refs", "refs_split"):
+        names = {c["name"] for c in case["clists"]}
+        for pol in out["prog"]:
+            for st in pol["statements"]:
+                for c in st["conds"]:
+                    if c["field"] in CFIELD and c["op"] == "HAS_ANY" and len(c["value"]) > 1 \
+                            and "_OR_".join(c["value"]) in names:
+                        return (f"C14/{v}/united-name-collides-with-list-name",
+                                f"{v}: HAS_ANY over {c['value']} next to a list literally called "
+                                f"{'_OR_'.join(c['value'])}: the dictionary of used lists is keyed by the mangled "
+                                f"name, one entry overwrites the other and the policy refers to a list that no "
+                                f"row defines in that name space")
         return (f"C14/{v}/undefined-reference",
                 f"{v}: a policy row refers to a named list the list generators do not define under that name")
     return (f"C14/{v}/{kind}", kind)
@@ -554,7 +657,17 @@ def evaluate(cases, tag="cases"):
     terms = [coq_case(cases[i], outs[i]) for i in keep]
     res = core.run_case_files(ID, TY, IMPORTS, PREDS, terms, per_file=60, tag=tag, timeout=1200)
     res = {k: [keep[i] for i in v] for k, v in res.items()}
+    nterms = [coq_names(outs[i]["names"]) for i in keep]
+    nres = core.run_case_files(ID, "nameobs", IMPORTS, {"names": "names_agree"}, nterms, per_file=400,
+                               tag=tag + "_names", timeout=600)
+    res["names"] = [keep[i] for i in nres["names"]]
     return outs, keep, res
+
+
+def coq_names(n):
+    pfx = clist("(" + ", ".join([cstr(q[0]), onat(q[1]), onat(q[2]), cstr(q[3])]) + ")" for q in n["pfx"])
+    mg = clist(cpair(strs(q[0]), cstr(q[1])) for q in n["mangle"])
+    return f"(NO {pfx} {mg})"
 
 
 def nontrivial(case, out):
@@ -579,20 +692,32 @@ def run(ctx):
         i = sorted(not_wf)[0]
         raise core.CheckFailure(f"{len(not_wf)} generated programs outside wf_prog, e.g. {cases[i]}")
     failing = set()
-    for kind in ("before", "acl", "nesting", "refs"):
+    for kind in ("before", "acl", "acl_model", "nesting", "refs", "refs_split"):
         for i in res[kind]:
+            if kind == "refs_split" and i in res["refs"]:
+                continue
             failing.add(i)
             sig, what = signature(kind, cases[i], outs[i])
             ctx.add_violation(core.Violation(signature=sig, what=what,
                                              replay={"predicate": kind, "case": cases[i], "impl": outs[i]}))
-    disagree = [i for i in res["agree"] if i not in failing and i not in not_wf]
+    # word-for-word comparison of every row (names, members, bounds, numbers), also outside wf_prog
+    # (programs with duplicate entity names are outside it and are compared all the same)
+    disagree = [i for i in res["agree_full"] if i not in failing]
     for i in disagree[:1]:
         ctx.add_violation(core.Violation(
             signature="C14/model-impl-disagree",
-            what="the Coq model of the rpl generators and the real generators differ under the abstraction "
-                 "(block path, command head, names, item, error class) on a program where the property holds",
-            replay={"correspondence": "Model.Rpl.run_all patched vs annet.rpl_generators", "case": cases[i],
-                    "impl": outs[i]}, no_input=True))
+            what="the Coq model of the rpl generators and the real generators differ (rows compared word for "
+                 "word with block path, item and error class) on a program where the property holds"
+                 + ("" if i in res["agree"] else "; they agree under the abstraction (head, names, nesting)"),
+            replay={"correspondence": "Model.Rpl.run_all patched vs annet.rpl_generators (agree_full)",
+                    "case": cases[i], "impl": outs[i]}, no_input=True))
+    for i in res["names"][:1]:
+        ctx.add_violation(core.Violation(
+            signature="C14/name-derivation-disagree",
+            what="Model.Rpl.pfx_name / mangle differ from PrefixListNameGenerator.get_prefix(...).name / "
+                 "mangle_united_community_list_name on a probe",
+            replay={"correspondence": "Spec.P_C14x.names_agree", "case": cases[i], "impl": outs[i]["names"]},
+            no_input=True))
     seen, nontriv = set(), 0
     hist = {"ok": 0, "error": 0}
     errs = {}
@@ -621,6 +746,9 @@ def run(ctx):
         "outcome_histogram": hist,
         "error_classes_seen": dict(sorted(errs.items())),
         "builder_refusals": len(build_errors),
+        "cases_in_domain_of_C14_refs_defined": len(keep) - len(res["refs_thm_domain"]),
+        "name_derivation_probes": sum(len(outs[i]["names"]["pfx"]) + len(outs[i]["names"]["mangle"]) for i in keep),
+        "rows_compared_word_for_word": sum(len(g["rows"]) for i in keep for g in outs[i]["gens"].values()),
         "outside_wf": len(not_wf),
         "exhaustive": False,
     })
@@ -629,7 +757,12 @@ def run(ctx):
         "regexp/basic/advanced/standard/expanded (wf domain of the generator of inputs)",
         "references of a policy to lists are type-correct and resolve (wf_prog); KeyError for unknown names and "
         "ValueError for a BASIC/LARGE list in an extcommunity action are outside the domain",
-        "values inside rows (numbers, members, addresses) are not compared between model and implementation",
+        "rows are compared word for word (words of the text = tokens of the model split at blanks); addresses are "
+        "given to the model in the canonical form ipaddress.ip_network prints",
+        "C14_refs_defined reads rows as token lists (Model.Rpl.alpha) and holds under refs_guard (Arista reserved "
+        "words, one union per mangled key) and wf_refs (referenced lists exist, have members, type-correct; entity "
+        "names may repeat)",
+        "C14_acl_covered: row text = tokens joined by single blanks; Cumulus has no ACL (text generator)",
         "CommunityType.COST, custom conditions/actions and set_next_hop (undocumented) are outside the domain",
     ]
     ctx.notes.append("level: partial — see META.note")
@@ -639,6 +772,6 @@ def replay(ctx, doc):
     c = doc["replay"]["case"]
     outs, keep, res = evaluate([c], tag="replay")
     print("impl:", json.dumps(outs[0])[:3000])
-    bad = [k for k in ("before", "acl", "nesting", "refs") if res[k]]
+    bad = [k for k in ("before", "acl", "acl_model", "nesting", "refs", "refs_split") if res[k]]
     print("failing predicates:", bad, "agree:", not res["agree"])
     return 1 if bad else 0
